@@ -33,6 +33,13 @@ func VerifHashEntries() {
 			vReach("entry")
 		}
 	}
+	// every declared constant maps to itself and has its documented text
+	decl := []Hash{Document, Font_Face, Keyframes, Layer, Media, Page, Supports}
+	text := []string{"document", "font-face", "keyframes", "layer", "media", "page", "supports"}
+	for i, c := range decl {
+		vAssert(string(c.Bytes()) == text[i], "constant-text")
+		vAssert(ToHash([]byte(text[i])) == c, "constant-does-not-map-to-itself")
+	}
 	h := Hash(vUint32("h"))
 	b := h.Bytes()
 	vAssert(len(b) <= len(_Hash_text), "bytes-length")
